@@ -21,7 +21,7 @@ import (
 
 func init() {
 	Register(&World{Name: "pipeline", Props: []string{"C07", "C08", "C09"}, Concurrent: true, Timed: false, MaxSteps: 60000, Run: pipelineWorld})
-	ExpectedProbes["pipeline/C07"] = []string{"depth-4", "iterator-agrees", "stream-agrees", "reducer-collect", "reducer-last", "reducer-one", "reducer-reduce", "iterator-equal", "xslices-agrees", "laziness-checked", "end-sticky-checked", "op-filter", "op-map", "op-first", "op-while", "op-compact", "op-compactfunc", "op-peek", "op-chunk", "op-chunkflat", "op-runssep", "op-runsflat", "op-runshead", "op-flatmap", "op-join", "last-n-zero", "last-n-huge", "ilast-n-huge", "chan-leaf-fed-live", "flatten-aliased-slices"}
+	ExpectedProbes["pipeline/C07"] = []string{"depth-4", "iterator-agrees", "stream-agrees", "reducer-collect", "reducer-last", "reducer-one", "reducer-reduce", "iterator-equal", "xslices-agrees", "laziness-checked", "end-sticky-checked", "op-filter", "op-map", "op-first", "op-while", "op-compact", "op-compactfunc", "op-peek", "op-chunk", "op-chunkflat", "op-runssep", "op-runsflat", "op-runshead", "op-flatmap", "op-join", "xslices-arguments-untouched", "last-n-zero", "last-n-huge", "ilast-n-huge", "chan-leaf-fed-live", "flatten-aliased-slices"}
 	ExpectedProbes["pipeline/C08"] = []string{"fault-src-error", "fault-cb-error", "fault-ctx-precancelled", "fault-transient", "fault-ctx-deadline-midcall", "error-with-chunk-pending", "error-inside-flatten-inner", "error-in-mapstream", "error-in-batch", "error-in-merge", "single-fault-exhaustive", "multi-fault", "reducer-error", "fault-not-reached", "chan-leaf-fed-live", "chan-feeder-slow-under-deadline"}
 	ExpectedProbes["pipeline/C09"] = []string{"own-abandoned-early", "own-read-to-end", "own-after-error", "own-reducer", "own-flatten-inner", "own-join-later-args", "own-merge-inputs", "own-mapstream", "own-batch", "own-samplestream"}
 }
@@ -321,7 +321,7 @@ func progDepth(n *pnode) int {
 // pipelineExec instantiates the program over juniper's stream package and runs the consumer
 // script against it (in the calling task).
 func pipelineExec(r *R, prog *pnode, plan *faultPlan, sc *pScript, checkLazy bool) *pResult {
-	root := NewCtx(nil, "root")
+	root := RootCtx(r)
 	b := &sbuild{r: r, plan: plan, owner: map[*Src]string{}, byID: map[int]*Src{}, bg: root}
 	res := &pResult{b: b}
 	b.spy = &rootSpy{inner: b.build(prog, "consumer")}
@@ -1122,6 +1122,18 @@ func pipelineIteratorChecks(r *R, prog *pnode, X []int, pulls []map[int]int, sla
 	r.Probe("iterator-equal")
 }
 
+func uniqueRef(xs []int) []int {
+	seen := map[int]bool{}
+	var out []int
+	for _, x := range xs {
+		if !seen[x] {
+			seen[x] = true
+			out = append(out, x)
+		}
+	}
+	return out
+}
+
 // pipelineXslices: the slice counterparts agree with the reference on one random input.
 func pipelineXslices(r *R) {
 	g := &pgen{r: r}
@@ -1146,6 +1158,16 @@ func pipelineXslices(r *R) {
 	cmp := func(name string, got, want []int) bool {
 		if fmt.Sprint(got) != fmt.Sprint(want) && !(len(got) == 0 && len(want) == 0) {
 			r.Violate("C07", "xslices/"+name, "xslices.%s on %v gives %v, the reference %v", name, xs, got, want)
+			return false
+		}
+		return true
+	}
+	// The functions that are not documented as working in place (Filter has FilterInPlace beside
+	// it, Unique has UniqueInPlace) leave the slice they are given as it was.
+	arg := func() []int { return append(make([]int, 0, len(xs)+3), xs...) } // spare capacity: an append into it would show
+	untouched := func(name string, in []int) bool {
+		if fmt.Sprint(in) != fmt.Sprint(xs) || fmt.Sprint(in[:cap(in)][len(in):]) != fmt.Sprint(make([]int, cap(in)-len(in))) {
+			r.Violate("C07", "xslices/"+name+"/input-modified", "xslices.%s changed the slice it was given: %v (spare capacity %v) was %v", name, in, in[:cap(in)][len(in):], xs)
 			return false
 		}
 		return true
@@ -1180,14 +1202,36 @@ func pipelineXslices(r *R) {
 	if !cmp("CompactFunc", xslices.CompactFunc(append([]int(nil), xs...), func(a, b int) bool { return coarseEq(coarse+1, a, b) }), mdl(&pnode{op: "compactfunc", n: coarse + 1, kids: []*pnode{leaf}})) {
 		return
 	}
-	if !cmp("Filter", xslices.Filter(append([]int(nil), xs...), func(x int) bool { return predFn(fn, x) }), mdl(&pnode{op: "filter", fn: fn, kids: []*pnode{leaf}})) {
-		return
-	}
-	if !cmp("Map", xslices.Map(xs, func(x int) int { return mapFn(fn%3, x) }), mdl(&pnode{op: "map", fn: fn % 3, kids: []*pnode{leaf}})) {
-		return
-	}
-	if !cmp("Runs", flat(xslices.Runs(append([]int(nil), xs...), func(a, b int) bool { return coarseEq(coarse, a, b) }), sepRun), mdl(&pnode{op: "runssep", n: coarse, kids: []*pnode{leaf}})) {
-		return
+	{
+		in := arg()
+		got := xslices.Filter(in, func(x int) bool { return predFn(fn, x) })
+		if !cmp("Filter", got, mdl(&pnode{op: "filter", fn: fn, kids: []*pnode{leaf}})) || !untouched("Filter", in) {
+			return
+		}
+		// and the result is the caller's own: writing to it does not reach the argument
+		for i := range got {
+			got[i] = -99
+		}
+		if !untouched("Filter", in) {
+			return
+		}
+		in = arg()
+		if !cmp("Map", xslices.Map(in, func(x int) int { return mapFn(fn%3, x) }), mdl(&pnode{op: "map", fn: fn % 3, kids: []*pnode{leaf}})) || !untouched("Map", in) {
+			return
+		}
+		in = arg()
+		if !cmp("Runs", flat(xslices.Runs(in, func(a, b int) bool { return coarseEq(coarse, a, b) }), sepRun), mdl(&pnode{op: "runssep", n: coarse, kids: []*pnode{leaf}})) || !untouched("Runs", in) {
+			return
+		}
+		in = arg()
+		if !cmp("Chunk", flat(xslices.Chunk(in, k), sepChunk), mdl(&pnode{op: "chunk", n: k, kids: []*pnode{leaf}})) || !untouched("Chunk", in) {
+			return
+		}
+		in = arg()
+		if !cmp("Unique", xslices.Unique(in), uniqueRef(xs)) || !untouched("Unique", in) {
+			return
+		}
+		r.Probe("xslices-arguments-untouched")
 	}
 	ys := g.items()
 	if !cmp("Join", xslices.Join(xs, ys), mdl(&pnode{op: "join", kids: []*pnode{leaf, {op: "slice", items: ys}}})) {
